@@ -438,7 +438,7 @@ func runWorker(bi *buildInfo, pc *propCfg, seed uint64, w int, spec workerSpec, 
 	cmd.Stderr = &stderr
 	cmd.Stdout = &stderr
 	// real-time guard: budget plus generous slack; a worker that overruns is machinery trouble
-	limit := time.Duration((spec.seconds + 600) * float64(time.Second))
+	limit := time.Duration((2*spec.seconds + 240) * float64(time.Second))
 	if spec.seconds == 0 {
 		limit = 30 * time.Minute
 	}
